@@ -125,7 +125,7 @@ pub fn run_pool_case(case: &PoolCase) -> Verdict {
         return fail(sig, detail);
     }
     let (spawned, max_live, timeouts) = *counters.lock().unwrap();
-    let mut g = if case.n >= 5 { Good { nontrivial: Some(res.stats.trace_hash), classes: vec![] } } else { Good::trivial() };
+    let mut g = if case.n >= 5 { Good { nontrivial: Some(res.stats.trace_hash), classes: vec![], extra_evals: 0 } } else { Good::trivial() };
     g = g
         .class(format!("n={}", case.n))
         .class_if(case.warmup > 0, "warmup")
